@@ -2,8 +2,10 @@ use crate::common::Ctx;
 use crate::report::Report;
 
 pub mod diff;
+pub mod foreign;
 pub mod handles;
 pub mod hist;
+pub mod hostile;
 pub mod more;
 pub mod names;
 
@@ -12,11 +14,14 @@ pub fn dispatch(ctx: &Ctx, rep: &mut Report) -> bool {
         "C01" => hist::run_c01(ctx, rep),
         "C02" => hist::run_c02(ctx, rep),
         "C03" => hist::run_c03(ctx, rep),
+        "C04" => foreign::run_c04(ctx, rep),
+        "C05" => hostile::run_c05(ctx, rep),
         "C06" => handles::run_c06(ctx, rep),
         "C07" => handles::run_c07(ctx, rep),
         "C08" => handles::run_c08(ctx, rep),
         "C09" => names::run_c09(ctx, rep),
         "C10" => more::run_c10(ctx, rep),
+        "C11" => hostile::run_c11(ctx, rep),
         "C15" => more::run_c15(ctx, rep),
         "C17" => more::run_c17(ctx, rep),
         "C18" => diff::run_c18(ctx, rep),
